@@ -2,11 +2,12 @@
     Property theorems only: statement, [exact] of a lemma proved in Proofs/, [Print Assumptions].
     Models: Model/C11_MapFn.v (Haldane/Kosambi over R + verified interval evaluator),
             Model/C11_Map.v  (StandardGeneticMap / ExtendedGeneticMap / interp_xoprob, exact rationals),
-            Model/C11_Check.v (the comparisons evaluated by the correspondence shards). *)
+            Model/C11_Check.v (the comparisons evaluated by the correspondence shards),
+            Model/C11_Session.v (sessions of interp_genpos / interp_xoprob calls on one variant matrix). *)
 From Coq Require Import Reals QArith Qreals Sorting.Sorted Sorting.Permutation.
 From Coq Require Import PrimFloat.
 From PV Require Import Lib.Common Model.C11_Map Model.C11_MapFn Model.C11_Check Proofs.C11_Map Proofs.C11_MapFn Proofs.C11_Xo Proofs.C11_Float
-  Gen.C11_Kernel Proofs.C11_Kernel Proofs.C11_Laws.
+  Gen.C11_Kernel Proofs.C11_Kernel Proofs.C11_Laws Model.C11_Session Proofs.C11_Session.
 
 (** * map functions *)
 (** both map functions send 0 to 0, [0,inf) into [0,1/2), are strictly increasing, tend to 1/2 at infinity, are undone
@@ -382,3 +383,43 @@ Example C11_laws_hyps_satisfiable :
 Proof.
   split; [|apply le_n]. destruct wit_rd_wf as ((_ & D & _) & T & _). split; [exact D | exact T].
 Qed.
+
+(** * Sessions on one variant matrix (Model/C11_Session.v, Proofs/C11_Session.v) *)
+(** the result of interp_xoprob is a function of the map and the map function given to the call and of the matrix's chromosome /
+    position arrays, not of earlier calls: whatever the matrix carried from its constructor ([s]) and whatever maps / map functions it
+    was interpolated with before ([pre]), after interp_xoprob(gmap, gmapfn) vrnt_genpos and vrnt_xoprob are the generated kernel
+    expression of the CURRENT source evaluated on that map (its current rows) and that map function *)
+Theorem C11_interp_xoprob_forgets_earlier_calls : forall variants s pre rows k,
+  let sv := sort_pairs variants in
+  let st := gm_run variants s (pre ++ [CallXoprob rows k]) in
+  (gs_genpos st, gs_xoprob st)
+    = (let gp := k_gmat_interp_xoprob _ _ _ _ (interp_arrays rows) (rprob1g_of k) (map fst sv) (map snd sv) in (Some (fst gp), Some (snd gp)))
+  /\ st = mkGm (Some (gmat_genpos rows variants)) (Some (xoprob k rows variants)).
+Proof. exact session_xoprob_last. Qed.
+Print Assumptions C11_interp_xoprob_forgets_earlier_calls.
+
+Theorem C11_interp_xoprob_session_independent : forall variants s s' pre pre' rows k,
+  gm_run variants s (pre ++ [CallXoprob rows k]) = gm_run variants s' (pre' ++ [CallXoprob rows k]).
+Proof. exact session_xoprob_independent. Qed.
+Print Assumptions C11_interp_xoprob_session_independent.
+
+(** interp_genpos(gmap) stores the positions of the map of that call and leaves vrnt_xoprob as it was *)
+Theorem C11_interp_genpos_forgets_earlier_calls : forall variants s pre rows,
+  let st := gm_run variants s (pre ++ [CallGenpos rows]) in
+  gs_genpos st = Some (gmat_genpos rows variants) /\ gs_xoprob st = gs_xoprob (gm_run variants s pre).
+Proof. exact session_genpos_last. Qed.
+Print Assumptions C11_interp_genpos_forgets_earlier_calls.
+
+(** after the i-th call of any session the stored positions (and, for interp_xoprob, the crossover probabilities) are those of the
+    map / map function of the i-th call *)
+Theorem C11_session_every_call : forall variants s calls i c, nth_error calls i = Some c ->
+  gs_genpos (gm_run variants s (firstn (S i) calls)) =
+    Some (gmat_genpos (match c with CallGenpos rows => rows | CallXoprob rows _ => rows end) variants)
+  /\ (forall rows k, c = CallXoprob rows k -> gs_xoprob (gm_run variants s (firstn (S i) calls)) = Some (xoprob k rows variants)).
+Proof. exact session_every_call. Qed.
+Print Assumptions C11_session_every_call.
+
+Example C11_session_hyps_satisfiable :
+  nth_error [CallGenpos [mkRow 1 10 0 []; mkRow 1 20 (1 # 2) []]; CallXoprob [mkRow 1 10 0 []; mkRow 1 30 (1 # 4) []] Kosambi] 1
+  = Some (CallXoprob [mkRow 1 10 0 []; mkRow 1 30 (1 # 4) []] Kosambi).
+Proof. reflexivity. Qed.
